@@ -1,7 +1,9 @@
 """Write seeded/<id>/meta.json from the patch, the confirmation logs and the sweep results."""
 import json, os, re, glob
 ROOT = '/verif/seeded'
-INITIAL_MISS = {'C01-1': 'provider function _increment_parent_descriptor_version was not under contract and histories created one child per transaction',
+INITIAL_MISS = {'C03-8': 'no contract stated the frame "API methods of a transaction body only queue" (a table mutation inside write_entity was an unknown call the opaque-callee rule accepted) and no bounded history deleted a context state through the entity interface before aborting',
+                'C16-8': '_scope_string_matches was under a totality contract only (never raises); its result was not tied to from_scope_string + __contains__',
+                'C01-1': 'provider function _increment_parent_descriptor_version was not under contract and histories created one child per transaction',
                 'C02-2': 'StateTransactionBase.write_entity was not under contract',
                 'C03-1': 'snapshot did not include the version memory and no history re-created a removed handle after an abort',
                 'C05-2': 'update_from_node (re-reading into a populated object) was not under contract / not exercised',
